@@ -71,9 +71,58 @@ fn node_scenario(w: &mut World, _ctx: &RunCtx, states: &mut Vec<u64>) -> Result<
         w.add_node(c, fam);
     }
     let mut s = Ns { hk: vec![0; 2], next_hk: vec![None; 2], deliveries: BTreeMap::new() };
+    // half-open connections: the initiator's last handshake message is lost for a while, so node 1 is connected
+    // and sends payload while node 0 still waits; whatever node 0 makes of that payload, the window rule holds
+    let half_open = w.ch.chance("half_open_connection", 200);
+    if half_open {
+        w.drop_stage = Some((1, 3, 10_000 + w.ch.choose("half_open_ms", 80_000) as u64));
+        w.count("c03_half_open_connections");
+    }
     for i in 0..2 {
         let st = w.start_node(i);
         after(w, &mut s, &st)?;
+    }
+    if half_open {
+        // traffic and replays while the handshake is open at node 0
+        let until = w.now_ms + 1_500;
+        drive(w, &mut s, until)?;
+        let mut counter = 1000u32;
+        let rounds = 3 + w.ch.choose("half_open_ops", 6);
+        for _ in 0..rounds {
+            if !w.is_connected(1, 0) {
+                break;
+            }
+            counter += 1;
+            let m = mesh::marker(w, counter);
+            let f = mesh::ipv4_packet(mesh::tun_ip(1), mesh::tun_ip(0), &m);
+            let first_wire = w.wire.len();
+            let at = w.now_ms + 1 + w.ch.choose("gap_ms", 900) as u64;
+            w.schedule_frame(at, 1, f);
+            drive(w, &mut s, at + 80)?;
+            let id = match (first_wire..w.wire.len()).find(|id| {
+                let r = &w.wire[*id];
+                r.from_node == Some(1) && matches!(r.cause, Cause::Dev(_)) && matches!(r.origin, Origin::Genuine) && !World::is_init_datagram(&r.data)
+            }) {
+                Some(id) => id,
+                None => continue,
+            };
+            let first = s.deliveries.get(&id).and_then(|v| v.iter().find(|d| d.0 == 0 && d.2 > 0)).copied();
+            let k_rounds = w.ch.choose("rounds_before_replay", 6) as u64;
+            let until = w.now_ms + k_rounds * 2000 + w.ch.choose("replay_phase_ms", 2000) as u64;
+            drive(w, &mut s, until)?;
+            let data = (*w.wire[id].data).clone();
+            let (src, dst) = (w.wire[id].src, w.wire[id].dst);
+            let rid = w.inject(src, dst, data, 1, "replayed-data");
+            let until = w.now_ms + 60;
+            drive(w, &mut s, until)?;
+            if let (Some(first), Some((_, rounds_before, writes))) = (first, s.deliveries.get(&rid).and_then(|v| v.iter().find(|d| d.0 == 0)).copied()) {
+                let rounds = rounds_before - first.1;
+                w.count("c03_node_level_replays_checked");
+                if rounds >= 2 && writes > 0 {
+                    return Err(Violation::new("replay-window", "replay-delivered-after-two-rounds", format!("n0, whose handshake was still open, wrote the payload of a datagram to its interface again that was replayed {} housekeeping rounds after its first delivery (cipher {})", rounds, cipher)));
+                }
+            }
+        }
     }
     let mut err = None;
     let ok = mesh::run_until_connected(w, &[(0, 1), (1, 0)], 8_000, |w, st| after(w, &mut s, st)).unwrap_or_else(|e| {
